@@ -260,12 +260,15 @@ class Hist:
             if os.path.isfile(p):
                 os.unlink(p)
             self.log.append(['rm-for-fix', d, f['sub'].decode('latin1')])
+            before = a.snapshot_data()
             r = a.run('fix', '-m')
             self.log.append(['fix', '-m', r.rc])
-            # whatever fix created (restored files, *.unrecoverable) becomes a known version
+            # whatever fix itself created or rewrote becomes the newest version (a file it did not touch, e.g. a silently
+            # corrupted one keeping size+mtime of a known version, is not a version)
             for (dd, rel), v in a.snapshot_data().items():
-                if v[0] == 'f' and not any(len(x[0]) == len(v[1]) and x[1] == v[2] for x in a.store.get((dd, rel), [])):
-                    a.note_version(dd, rel)      # (a silently corrupted file keeps size+mtime of a known version: not a new version)
+                b = before.get((dd, rel))
+                if v[0] == 'f' and (b is None or b[0] != 'f' or b[1] != v[1] or b[2] != v[2]):
+                    a.note_version(dd, rel)
             self.invariants('fix -m')
             return
         if op[0] in ('rehash', 'touchcmd', 'fixsel'):
@@ -290,11 +293,20 @@ class Hist:
                     args = ['fix', '-S', str(self.rng.randint(0, 2)), '-B', str(self.rng.randint(1, 3))]
                 else:
                     args = ['fix', '-e']
+            before = a.snapshot_data()
             r = a.run(*args)
             self.log.append(args + [r.rc])
-            # whatever the command created or rewrote (restored files, *.unrecoverable, new time-stamps) is a known version
+            # whatever the command itself created or rewrote (restored files, *.unrecoverable, new time-stamps, a block without
+            # recorded hash filled from unsynced parity) is the newest version of that file, even when it keeps the size and
+            # time-stamp of an older one; a file the command did not touch (e.g. a silently corrupted one) is NOT a version
+            range_fix = args[0] == 'fix' and '-S' in args and int(args[args.index('-S') + 1]) > 0
             for (dd, rel), v in a.snapshot_data().items():
-                if v[0] == 'f' and not any(len(x[0]) == len(v[1]) and x[1] == v[2] for x in a.store.get((dd, rel), [])):
+                b = before.get((dd, rel))
+                if v[0] == 'f' and (b is None or b[0] != 'f' or b[1] != v[1] or b[2] != v[2]):
+                    if range_fix and (b is None or b[0] != 'f') and any(len(x[0]) == len(v[1]) and x[1] == v[2] for x in a.store.get((dd, rel), [])):
+                        # `fix -S n` re-created a MISSING file with the recorded stamp but without the blocks before n (the open
+                        # finding F-C05-fix-start-range-recovers-file-with-hole): that file is damaged, not the synced version
+                        continue
                     a.note_version(dd, rel)
             self.invariants(' '.join(args))
             return
@@ -552,6 +564,50 @@ def collision_trials(chk, binary, shim, hasher, rng, n):
     return done
 
 
+def large_offset_trial(chk, binary, rng):
+    """a data file larger than 4 GiB (sparse: only three blocks carry bytes), 16 MiB blocks: the parity of the stripes at
+    and beyond the 2^32-byte offset must encode the bytes really there (a 32-bit file offset would read stripe k from
+    offset k*bs mod 2^32).  One parity level, two data disks: parity = xor, recomputed here with big-integer xor."""
+    bsk = 16384
+    a = Array(binary, nd=2, np_=1, blocksize_kib=bsk)
+    try:
+        bs = a.bs
+        nblk = (1 << 32) // bs + 2                     # 258 blocks: block 256 starts at exactly 4 GiB
+        p = a.path('d1', 'big')
+        marks = {0: rng.randbytes(4096), 256: rng.randbytes(4096), 257: rng.randbytes(1000)}
+        with open(p, 'wb') as f:
+            for k, b in marks.items():
+                f.seek(k * bs + 7)
+                f.write(b)
+            f.truncate((nblk - 1) * bs + 1007 + 7)
+        if os.stat(p).st_blocks * 512 > 64 << 20:
+            return 'not sparse here: skipped'
+        small = rng.randbytes(3 * 1024)
+        a.write('d2', 'small', small)
+        r = a.run('sync', timeout=600)
+        if r.rc != 0:
+            chk.violation('large_sync', 'sync of a 4 GiB + 32 MiB sparse file (16 MiB blocks) exits %d: %s' % (r.rc, r.err[-300:]), {'kind': 'large_offset'})
+            return 'sync failed'
+        st = a.content()
+        pf = a.parity_files[0][0]
+        bad = []
+        with open(pf, 'rb') as f, open(p, 'rb') as g:
+            for k in (0, 1, 255, 256, 257):
+                g.seek(k * bs); d1 = g.read(bs); d1 = d1 + bytes(bs - len(d1))
+                d2 = small if k == 0 else b''
+                d2 = d2 + bytes(bs - len(d2))
+                exp = (int.from_bytes(d1, 'little') ^ int.from_bytes(d2, 'little')).to_bytes(bs, 'little')
+                f.seek(k * bs); got = f.read(bs); got = got + bytes(bs - len(got))
+                if got != exp:
+                    bad.append(k)
+        if bad:
+            chk.violation('large_offset', 'file larger than 4 GiB: after a successful sync the parity of stripes %s (blocks at and beyond the 2^32-byte offset: 256, 257) is not the xor of the data really at those offsets' % bad,
+                          {'kind': 'large_offset', 'blocksize_kib': bsk, 'bad_stripes': bad})
+        return 'ok' if not bad else 'bad %s' % bad
+    finally:
+        shutil.rmtree(a.root, ignore_errors=True)
+
+
 def main(tier, replay=None):
     chk = Check('C06', tier, 'proof')
     snap = snapshot_repo()
@@ -572,8 +628,8 @@ def main(tier, replay=None):
     if replay:
         rp = json.load(open(replay))['replay']
         if rp.get('plain'):
-            kw = dict(rp['plain']); murmur = kw.pop('murmur_first', False)
-            H = Hist(chk, binary, shim, model, random.Random(rp['seed']), rp['nd'], rp['np'], with_model=False, hasher=None, **kw)
+            kw = dict(rp['plain']); murmur = kw.pop('murmur_first', False); zm = kw.pop('zmode', False)
+            H = Hist(chk, binary, shim, model, random.Random(rp['seed']), rp['nd'], rp['np'], zmode=zm, with_model=False, hasher=None, **kw)
             if murmur:
                 H.first_sync_opts = ['--test-force-murmur3']
         else:
@@ -607,7 +663,12 @@ def main(tier, replay=None):
         np_ = rng.choice([1, 2, 2, 3])
         ops = gen_history_plain(random.Random(rng.getrandbits(32)), nd, rng.randint(4, 7))
         kw = {'plain': True, 'murmur_first': rng.random() < 0.6, 'splits': rng.choice([1, 1, 2, 3]), 'ncontent': rng.choice([1, 1, 2]),
-              'hashsize': rng.choice([None, None, 8])}
+              'hashsize': rng.choice([None, None, 8]), 'parity_order': rng.choice([None, 'reversed', 'rotated'])}
+        if h % 4 == 0:
+            # the alternate (Vandermonde) third parity, with the z-parity line anywhere among the parity lines
+            np_ = 3
+            kw['zmode'] = True
+            kw['parity_order'] = rng.choice(['reversed', 'rotated', None])
         hists.append((nd, np_, ops, rng.getrandbits(32), kw))
 
     def one(hh):
@@ -615,7 +676,9 @@ def main(tier, replay=None):
         kw = dict(hh[4]) if len(hh) > 4 else {}
         if kw.pop('plain', False):
             murmur = kw.pop('murmur_first')
-            H = Hist(chk, binary, shim, model, random.Random(seed), nd, np_, with_model=False, hasher=None, **kw)
+            zm = kw.pop('zmode', False)
+            H = Hist(chk, binary, shim, model, random.Random(seed), nd, np_, zmode=zm, with_model=False, hasher=None, **kw)
+            kw['zmode'] = zm
             if murmur:
                 H.first_sync_opts = ['--test-force-murmur3']     # so that a later `rehash` has something to do
             H.rinfo = {'nd': nd, 'np': np_, 'seed': seed, 'ops': ops, 'plain': dict(kw, murmur_first=murmur)}
@@ -635,6 +698,7 @@ def main(tier, replay=None):
                     'histories': nh, 'all_blk_stripes_recomputed': total_stripes, 'sync_steps_replayed_by_model': total_model,
                     'traces_validated_against_impl': total_model})
     chk.cov['samples'] = samples
+    chk.cov['large_offset_trial'] = large_offset_trial(chk, binary, rng)
     chk.cov['reduced_hash_collision_trials'] = collision_trials(chk, binary, shim, hasher, rng, 2 if tier == 'quick' else 10)
     if ob['failed'] and not chk.violations:
         chk.violation('obligation', 'proof obligation of C06 no longer checks: %s' % ob['failed'][0],
